@@ -162,6 +162,9 @@ def run(sc):
                     if not f.fired:
                         f.fired = True
                         f.kind = "unfired:" + f.kind
+            # "service errors": the target refuses this call's services with a CIP status
+            for m_ in {entry, target_mod}:
+                m_.inject = [dict(i) for i in op.get("inject", [])]
             fired_before = len([f for f in net.faults if f.fired and not f.kind.startswith("unfired")])
             conns_before = set(entry.connections)
             outcome, res = do_op(env, drv, op, sc, ref)
@@ -407,6 +410,12 @@ def gen_base(r, tier, prop):
             state_open = False
         else:
             ops.append({"id": oid, "kind": "idle", "us": r.choice((10**6, 60 * 10**6, 1200 * 10**6, 2000 * 10**6))})
+    for o in ops:
+        if o["kind"] in ("read", "write") and dcls == "LogixDriver" and r.random() < 0.12:
+            o["inject"] = [{"where": "tag_service", "match": {}, "status": r.choice((0x04, 0x05, 0x08, 0x10, 0x1F, 0xFF)),
+                            "ext": [], "sticky": True}]
+        elif o["kind"] == "generic" and r.random() < 0.1:
+            o["inject"] = [{"where": "generic", "match": {}, "status": r.choice((0x05, 0x08, 0x0E, 0x14, 0xFF)), "ext": []}]
     sc["ops"] = ops
     return sc
 
